@@ -26,10 +26,12 @@ BUDGET_S = {"quick": 240, "thorough": 2400}
 
 
 def cases(tier, seed):
-    for i in range(900 if tier == "quick" else 20000):
+    for i in range(1400 if tier == "quick" else 30000):
         yield {"fam": "rand", "i": i}
     for i in range(120 if tier == "quick" else 1500):
         yield {"fam": "wrap", "i": i}
+    for i in range(270 if tier == "quick" else 2700):
+        yield {"fam": "paircode", "i": i}
 
 
 def setup(ctx):
@@ -89,6 +91,25 @@ def run(case, ctx):
     cfg = {"input": it, "backend": [None, "cc3d", "scipy"][i % 3], "matcher": None if it == "MATCHED_INSTANCE" else dict(mk, metric=metric, thr=thr)}
     if fam == "wrap":
         return wrap_case(ctx, i, r, cfg)
+    if fam == "paircode":
+        # label values whose pair code lands at 2^8 / 2^16 / 2^32, against the same maps labelled 1..k in uint64
+        p2, r2 = gen.paircode_boundary_pair(ctx.seed, i)
+        cfg = dict(cfg, input="UNMATCHED_INSTANCE", matcher=dict(mk, metric="IOU", thr=0.5))
+
+        def compact(a):
+            out = np.zeros(a.shape, dtype=np.uint64)
+            for k, l in enumerate([x for x in np.unique(a) if x != 0], start=1):
+                out[a == l] = k
+            return out
+
+        base = meta.run(cfg, compact(p2), compact(r2))
+        t = meta.run(cfg, p2, r2)
+        ctx.count("evaluations", 2)
+        ctx.count("f:C09.paircode_boundary")
+        feats = {"input": "UNMATCHED_INSTANCE", "kind": "paircode_boundary", "dtype": str(p2.dtype), "matcher": mk["kind"]}
+        if judge(ctx, base, t, {"pred": p2, "ref": r2, "cfg": cfg, "labels_pred": sorted(int(x) for x in np.unique(p2) if x), "labels_ref": sorted(int(x) for x in np.unique(r2) if x)}, feats):
+            ctx.nontrivial("paircode", gen.arr_key(p2, r2), cfg)
+        return
     pred, refa, f = gen.random_pair(ctx.seed, 20000 + i, dtype=np.uint16, max_inst=5)
     ctx.count("f:family." + f)
     if it == "MATCHED_INSTANCE":
